@@ -52,7 +52,7 @@ class InferHooks:
         if key == '.belief_propagation' and args:
             st.assume(z3.Implies(pred(eng, 'carries', args[0]), pred(eng, 'zeroed', res)))      # A4
         if key == '._marginal_loss':
-            g = E.Obj(eng.uf('unpack1_2', V, V)(res.t))
+            g = E.Obj(eng.uf('getitem', V, V, V)(res.t, eng.to_V(E.Num(z3.IntVal(1)))))
             st.assume(pred(eng, 'finite', g))                                                  # A5
 
     def binop(self, eng, st, op, l, r, node):
